@@ -11,12 +11,14 @@ import IcyVerif.Drv.FontDcs
 import IcyVerif.Drv.FontLoad
 import IcyVerif.Drv.IcyDraw
 import IcyVerif.Drv.Igs
+import IcyVerif.Drv.Igsx
 import IcyVerif.Drv.LoaderCost
 import IcyVerif.Drv.Loaders
 import IcyVerif.Drv.PalStream
 import IcyVerif.Drv.Palette
 import IcyVerif.Drv.Rect
 import IcyVerif.Drv.Rip
+import IcyVerif.Drv.Ripc
 import IcyVerif.Drv.Rows
 import IcyVerif.Drv.Sauce
 import IcyVerif.Drv.SauceLoad
@@ -47,12 +49,14 @@ def dispatch (line : String) : String :=
   | "fontload" :: rest => FontLoad.handle rest
   | "icydraw" :: rest => IcyDraw.handle rest
   | "igs" :: rest => Igs.handle rest
+  | "igsx" :: rest => Igsx.handle rest
   | "loadercost" :: rest => LoaderCost.handle rest
   | "loaders" :: rest => Loaders.handle rest
   | "palstream" :: rest => PalStream.handle rest
   | "palette" :: rest => Palette.handle rest
   | "rect" :: rest => Rect.handle rest
   | "rip" :: rest => Rip.handle rest
+  | "ripc" :: rest => Ripc.handle rest
   | "rows" :: rest => Rows.handle rest
   | "sauce" :: rest => Sauce.handle rest
   | "sauceload" :: rest => SauceLoad.handle rest
